@@ -63,7 +63,9 @@ def make_h(tier):
             ctx.assume(False)
         src_kind = ctx.pick("ignore_source", (".thailintignore", "config-ignore")) if ig != "none" else "none"
         explicit = ctx.flag("also_named_explicitly")
-        entry = ctx.pick("entry", ("library", "cli")) if (not quick and ig == "none") else "library"
+        # the command line has its own target handling (files vs directories, --no-recursive): always exercised where explicit
+        # files meet a non-recursive directory target, everywhere in the thorough tier
+        entry = ctx.pick("entry", ("library", "cli")) if (ig == "none" and (not quick or (explicit and not recursive))) else "library"
         root = Path(tempfile.mkdtemp(prefix="c14-"))
         try:
             (root / ".git").mkdir()
